@@ -5,7 +5,21 @@ cd "$(dirname "$0")"
 export CARGO_NET_OFFLINE=true
 python3 tools/gen_constants.py || echo "setup: constants extractor reported a problem"
 PROPS=$(python3 -c "import json;print(' '.join(c['property_id'] for c in json.load(open('MANIFEST.json'))['checks']))")
+EXTRA=$(python3 -c "
+import json,glob,os
+mods=set(); bins=set()
+for f in glob.glob('tools/claims/*.json'):
+    c=json.load(open(f))
+    for m in c.get('extra_props',[]):
+        if os.path.exists('lean/'+m.replace('.','/')+'.lean'): mods.add(m)
+    for b in c.get('drift',[]):
+        if os.path.exists('harness/src/bin/'+b+'.rs'): bins.add(b)
+print(' '.join(sorted(mods))+'|'+' '.join(sorted(bins)))")
+EXTRA_MODS="${EXTRA%%|*}"; DRIFT_BINS="${EXTRA##*|}"
 ( cd lean
+  # composite-model refinement modules (their Cxx_* theorems are audited with the owning property) and composite drivers
+  [ -n "$EXTRA_MODS" ] && { lake build $EXTRA_MODS 2>&1 | grep -v auto_activate_base | tail -n 2 || echo "setup: lean build of extra modules failed"; }
+  for b in $DRIFT_BINS; do lake build drv_$b 2>&1 | grep -v auto_activate_base | tail -n 1; done
   for p in $PROPS; do
     low=$(echo $p | tr 'A-Z' 'a-z')
     lake build LaunchpadModel.Props.$p drv_$low 2>&1 | grep -v auto_activate_base | tail -n 3 || echo "setup: lean build for $p failed"
@@ -14,6 +28,7 @@ PROPS=$(python3 -c "import json;print(' '.join(c['property_id'] for c in json.lo
   [ -f Cargo.lock ] || cp /repo/Cargo.lock .
   BINS=""
   for p in $PROPS; do low=$(echo $p | tr 'A-Z' 'a-z'); [ -f src/bin/$low.rs ] && BINS="$BINS --bin $low"; done
+  for b in $DRIFT_BINS; do BINS="$BINS --bin $b"; done
   cargo build --offline $BINS 2>&1 | grep -v auto_activate_base | grep -E "^(error|Finished|warning: unused)" | tail -n 20 )
 echo "setup done"
 exit 0
